@@ -22,6 +22,12 @@ def honest_responder(agent, cfgref, mib, cap, value_of=None):
             return []
         name = bytes(req.names[0])
         arcs = arcs_of(name)
+        if req.ptype == "get":
+            vbs = []
+            for nm in req.names:
+                hit = [(i, e) for i, e in enumerate(entries) if e[1] == bytes(nm)]
+                vbs.append((bytes(nm), value_of(hit[0][0], bytes(nm)) if hit else (("null",) if cfg.ver == "v1" else ("noSuchInstance",))))
+            return [(agent.reply(cfg, req, vbs), [])]
         if req.ptype == "getnext":
             nx = after(arcs)
             if nx:
